@@ -245,7 +245,8 @@ def run_tlc(
     elif keep_wd:
         res.stdout += f"\n[wd kept: {wd}]"
     if fatal and not violated:
-        raise MachineryError(f"TLC failed on {module} ({label}): exit {code}\n{out[-3000:]}")
+        i = out.find("Error")
+        raise MachineryError(f"TLC failed on {module} ({label}): exit {code}\n{out[i:i + 2500] if i >= 0 else ''}\n...\n{out[-1500:]}")
     return res
 
 
